@@ -109,6 +109,52 @@ func leanPairs(ps [][2]string) string {
 	return "[" + strings.Join(parts, ", ") + "]"
 }
 
+// subAtom classifies one conjunct of the dispatch conditions of processSubscribeRequest.
+func subAtom(e ast.Expr) string {
+	switch exprString(e) {
+	case "req.GetSubscribe() != nil":
+		return "sub"
+	case "req.GetPoll() != nil":
+		return "poll"
+	case "sctx.req != nil":
+		return "have"
+	case "sctx.req == nil":
+		return "nothave"
+	}
+	return "other"
+}
+
+// subBranch classifies what a branch of the dispatch does: refuse = returns an Invalid error
+// straight away; split = remembers the request, splits it and forwards; poll = relays a poll.
+func subBranch(b *ast.BlockStmt) string {
+	kind := "other"
+	hasSplit, hasPoll := false, false
+	ast.Inspect(b, func(n ast.Node) bool {
+		if c, ok := n.(*ast.CallExpr); ok {
+			switch exprString(c.Fun) {
+			case "splitSubscribeRequest":
+				hasSplit = true
+			case "s.sendPollRequest":
+				hasPoll = true
+			}
+		}
+		return true
+	})
+	switch {
+	case hasSplit && !hasPoll:
+		kind = "split"
+	case hasPoll && !hasSplit:
+		kind = "poll"
+	case len(b.List) == 1:
+		if ret, ok := b.List[0].(*ast.ReturnStmt); ok && len(ret.Results) == 1 {
+			if c, ok := ret.Results[0].(*ast.CallExpr); ok && exprString(c.Fun) == "errors.NewInvalid" {
+				kind = "refuse"
+			}
+		}
+	}
+	return kind
+}
+
 func init() {
 	sections = append(sections, func() {
 		const rel = "pkg/northbound/gnmi/v2/subscribe.go"
@@ -129,6 +175,30 @@ func init() {
 				return
 			}
 		}
+		// the dispatch of processSubscribeRequest: an if / else-if chain
+		proc := findFunc(file, "processSubscribeRequest")
+		var chain []string
+		if proc != nil && len(proc.Body.List) > 0 {
+			var cur ast.Stmt = proc.Body.List[0]
+			for cur != nil {
+				switch x := cur.(type) {
+				case *ast.IfStmt:
+					var atoms []string
+					for _, cj := range flattenAnd(x.Cond) {
+						atoms = append(atoms, subAtom(cj))
+					}
+					chain = append(chain, fmt.Sprintf("(%s, %s)", leanStrList(atoms), leanStr(subBranch(x.Body))))
+					cur = x.Else
+				case *ast.BlockStmt:
+					chain = append(chain, fmt.Sprintf("([], %s)", leanStr(subBranch(x))))
+					cur = nil
+				default:
+					cur = nil
+				}
+			}
+		}
+		fmt.Fprintf(&out, "/-! ### C19: dispatch of processSubscribeRequest (%s) -/\n\n", rel)
+		fmt.Fprintf(&out, "/-- the if / else-if chain: (conjuncts of the condition — sub = the message is a subscription, poll = it is a poll, have / nothave = a subscription was / was not received on this stream; empty = final else, what the branch does) -/\ndef subProcessChain : List (List String × String) := [%s]\n\n", strings.Join(chain, ", "))
 		fmt.Fprintf(&out, "/-! ### C19: fields carried into the per-target subscribe request (%s) -/\n\n", rel)
 		fmt.Fprintf(&out, "/-- exported fields of the gnmi message types (from the gnmi module sources) -/\ndef gnmiSubscriptionListFields : List String := %s\ndef gnmiPathFields : List String := %s\ndef gnmiSubscribeRequestFields : List String := %s\n\n",
 			leanStrList(exportedFields(pb, "SubscriptionList")), leanStrList(exportedFields(pb, "Path")), leanStrList(exportedFields(pb, "SubscribeRequest")))
